@@ -91,6 +91,22 @@ pub fn values(c: Class, w: usize) -> Vec<Vec<u8>> {
             b[w - 1] = 0xe2;
             v.push(b);
             if w >= 4 {
+                // characters a JSON writer must escape, and DEL / NUL which it must not drop
+                let mut j = vec![b'j'; w];
+                j[..4].copy_from_slice(b"\"\\\n\x7f");
+                v.push(j);
+                let mut z = vec![b'n'; w];
+                z[1] = 0;
+                z[w - 1] = 0;
+                v.push(z);
+            }
+            if w >= 8 {
+                // U+2028 (a line terminator in JavaScript, not in JSON) and a four-byte scalar
+                let mut u = vec![b'u'; w];
+                u[..7].copy_from_slice("\u{2028}\u{1F600}".as_bytes());
+                v.push(u);
+            }
+            if w >= 4 {
                 let mut c4 = vec![b'q'; w];
                 c4[..4].copy_from_slice("é€".as_bytes()[..4].try_into().unwrap());
                 v.push(c4);
